@@ -12,6 +12,7 @@ import Driver.Plug.Nested
 import Driver.Plug.Future
 import Driver.Plug.FutChain
 import Driver.Plug.WhenComb
+import Driver.Plug.Wake
 /-! The list of plug-in models (one import and one entry per model). -/
 namespace Driver
 
@@ -30,7 +31,8 @@ def plugins : List (String × Plug) := [
   ("futchain", Driver.PlugFutChain.plug),
   ("futevt", Driver.PlugFuture.plugEvt),
   ("whenall", Driver.PlugWhenComb.plugAll),
-  ("whenany", Driver.PlugWhenComb.plugAny)
+  ("whenany", Driver.PlugWhenComb.plugAny),
+  ("wake", Driver.PlugWake.plug)
 ]
 
 end Driver
